@@ -74,6 +74,7 @@ def build(rng, e, with_jobs=False):
     calls.append(dict(ids=[3], mode="list", skew=1))
     if with_jobs:
         calls.append(dict(ids=[0, 3, 1, 4], mode=rng.choice(["jobs1", "jobs2", "jobs4"]), skew=1))
+        calls.append(dict(ids=[8, 8], mode=rng.choice(["jobs1", "jobs2"]), skew=0))      # workers must honour skew=False too
     job = dict(cfg=cfgf, dgms=[fd(d, sk) for d, sk in zip(dgms, skews)], calls=calls)
     return dict(g=g, dgms=dgms, skews=skews, names=names, job=job, emb=e)
 
@@ -114,6 +115,7 @@ def validate(ctx, items, mine, label, nproc=12):
             ctx.failure({"clause": mine + "-no-result", "detail": {k: r.get(k) for k in ("raised", "msg")}}, {"kind": "image", "g": it["g"], "emb": it["emb"].name, "dgms": it["dgms"]})
             continue
         c, mp = to_case(it, r)
+        c["mine"] = mine
         cases.append(c); idx.append(i); maps.append(mp)
     verdicts, st = tlc.run_batch("TraceImage", cases, nproc=nproc, heap="3g")
     ctx.extra.setdefault("trace_validation_runs", []).append(dict(label=label, cases=len(cases), images=sum(len(c["imgs"]) for c in cases), tlc_states=st["states"], wall_s=round(st["wall"], 1)))
